@@ -1,7 +1,7 @@
 SPECIFICATION Spec
 CONSTANTS
   MaxOps = 4
-  MaxLen = 7
+  MaxLen = 6
   MaxSeats = 3
   Nodes = {1, 2}
   Modes = {"keygen", "signing"}
